@@ -4,7 +4,7 @@
 From Coq Require Import String List NArith ZArith Bool.
 From J5V.lib Require Import Outcome Corr.
 From J5V.model Require Import RulesDecl RulesWrite RulesRead RulesEnum RulesCorr.
-From J5V.model Require ProtoPrintFile RulesView.
+From J5V.model Require ProtoPrintFile ProtoPrintFileWf RulesView RulesTextModel.
 Import ListNotations.
 
 Definition oZ_eq_dec : forall a b : option Z, {a = b} + {a <> b}.
@@ -94,7 +94,12 @@ Inductive c04case :=
 (* the decoder of C04_text_concrete: a compiled field as a descriptor of the file
    model of family tool (label, type, names, comment, option trees), and the
    annotation record this harness dumps for the same field *)
-| C04View (df : ProtoPrintFile.dfield) (fo : fout).
+| C04View (df : ProtoPrintFile.dfield) (fo : fout)
+(* a whole compiled file as a descriptor of the file model, the types of its imports, the
+   name of the root message, and what the real reflector read from the really printed
+   and re-parsed text of that file *)
+| C04File (env : enum_env) (imp : ProtoPrintFile.xsymtab) (d : ProtoPrintFile.dfile) (name : str)
+          (text_refl : outcome (list (option rprop))).
 
 (* options on the value field of a map entry (the key annotation) are not part of the file model *)
 Definition drop_map_key (o : fout) : fout :=
@@ -155,6 +160,16 @@ Definition c04_check (c : c04case) : bool :=
       end
   | C04View df fo =>
       fout_eqb (c04_proj (RulesView.view_field df)) (c04_proj (drop_map_key fo))
+  | C04File env imp d name text_refl =>
+      (* the hypotheses of C04_text_checked hold of the real descriptor, and the model chain
+         print -> parse -> decode -> read yields what the real text path yields *)
+      ProtoPrintFileWf.wf_dfile_b imp d && RulesTextModel.file_in_order_b d &&
+      match RulesTextModel.read_msg_text env imp name d, text_refl with
+      | Some (Ok ps), Ok rs =>
+          list_eqb2 (fun p r => match r with Some r => rprop_eqb p r | None => false end) ps rs
+      | Some (Err _), Err _ => true
+      | _, _ => false
+      end
   | C04Enum e obs refl =>
       (if enum_out_eq_dec (write_enum e) obs then true else false) &&
       match read_enum obs, refl with
